@@ -72,7 +72,33 @@ def _mk_normalize(kind, R):
     return ob
 
 
+def _mk_invert_matrix_body():
+    """body of utils.linalg.invert_matrix against its contract, with the assumed contracts of cho_factor / cho_solve and the
+    Lean lemma det_cholesky (ln det A = 2 sum ln C_ii).  The symbolic run uses a single matrix (R = 1: `len(A)` of a
+    symbolic batch is not representable in Python); the numeric world runs batches."""
+    def ob(w):
+        xp = w.xp
+        LA = SP.mods()["utils.linalg"]
+        R = 1 if w.symbolic else "R"
+        g = w.spd("a", SP.batch(R), "D")
+        if w.symbolic:
+            from .. import matrices as MX, shim as S
+            chol = MX.cholesky_contract(g["S"])
+            diag = chol.diagonal(axis1=-1, axis2=-2)
+        A_inv, ln_det = LA.invert_matrix(g["S"])                          # REAL body
+        w.equal("A_inv*A=I", xp.einsum("rij,rjk->rik", A_inv, g["S"]), xp.eye(w.size("D"))[None], broadcast=True)
+        if w.symbolic:
+            # det_cholesky: ln det A = 2 * sum_i ln C_ii for the triangular factor C of A
+            w.equal("ln_det=2*sum(log(diag(chol)))", ln_det, 2.0 * xp.sum(xp.log(diag), axis=1))
+        else:
+            w.equal("ln_det=LogDet[A]", ln_det, g["ld"])
+    return ob
+
+
 def _register():
+    REG.ob("utils.linalg.invert_matrix/body", sorts=["D", "R"], funcs=["utils.linalg.invert_matrix"],
+           axioms=["cho_factor: triangular C with C'C = A", "cho_solve((C, lower), B) = A^-1 B"], lemmas=["GtvLemmas.det_cholesky"],
+           note="symbolic run at R = 1 (len() of a symbolic batch is not representable); numeric world runs batches")(_mk_invert_matrix_body())
     MF = ["measure.GaussianMeasure.log_integral", "measure.GaussianMeasure.log_integral_light", "measure.GaussianMeasure.integral",
           "measure.GaussianMeasure.integral_light", "measure.GaussianMeasure.integrate", "measure.GaussianMeasure.compute_lnZ",
           "measure.GaussianMeasure.compute_mu", "measure.GaussianMeasure.invert_lambda", "measure.GaussianDiagMeasure.invert_lambda",
